@@ -585,16 +585,22 @@ def _on_alarm(signum, frame):
 
 
 def with_alarm(f, seconds=10):
-    """a real call that does not return within `seconds` is reported as a hang"""
+    """a real call that does not return within `seconds` of the process's own CPU time is reported as a
+    hang (a loop that never ends burns CPU; a machine that is merely overloaded or swapping does not count
+    against the call); a wall-clock backstop of 30 x `seconds` covers a call that blocks without computing"""
     import signal
     old = signal.signal(signal.SIGALRM, _on_alarm)
-    signal.alarm(seconds)
+    oldv = signal.signal(signal.SIGVTALRM, _on_alarm)
+    signal.alarm(30 * seconds)
+    signal.setitimer(signal.ITIMER_VIRTUAL, seconds)
     try:
         return f()
     except Hang:
         return {'err': ['Hang']}
     finally:
+        signal.setitimer(signal.ITIMER_VIRTUAL, 0)
         signal.alarm(0)
+        signal.signal(signal.SIGVTALRM, oldv)
         signal.signal(signal.SIGALRM, old)
 
 
